@@ -143,7 +143,10 @@ fn run_history(start: &Package, start_last: Last, hist: &[Op], keys: &[Key], key
                 // instants in the future of this host's clock and the last representable second
                 let h = hist.iter().fold(step as u64 + 1, |a, o| a.wrapping_mul(0x100000001b3).wrapping_add(match o { Op::Sign(k) => 10 + *k as u64, Op::Clear => 1, Op::Reparse => 2, Op::FailSign => 3, Op::SignSub => 4 }));
                 let now = std::time::SystemTime::now().duration_since(std::time::UNIX_EPOCH).map(|d| d.as_secs() as u32).unwrap_or(1_700_000_000);
-                match (h >> 7) % 10 {
+                // a third of the histories sign every time at ONE fixed instant (two signers, same second)
+                let hh = hist.iter().fold(7u64, |a, o| a.wrapping_mul(0x100000001b3).wrapping_add(match o { Op::Sign(k) => 10 + *k as u64, Op::Clear => 1, Op::Reparse => 2, Op::FailSign => 3, Op::SignSub => 4 }));
+                match if hh % 3 == 0 { 9 } else { (h >> 7) % 10 } {
+                    9 => pkg.sign_with_timestamp(&keys[*k].signer, 1_600_000_000u32),
                     0 => pkg.sign_with_timestamp(&keys[*k].signer, 0u32),
                     1 => pkg.sign_with_timestamp(&keys[*k].signer, now.saturating_add(400 * 86_400)),
                     2 => pkg.sign_with_timestamp(&keys[*k].signer, 4_102_444_800u32),
